@@ -424,21 +424,57 @@ def pinned_fns():
     return _PINNED
 
 
-def _renum(x, lo, zero=None):
+def _renum(x, lo, zero=None, pmap=None):
     """deep copy of a MIR JSON fragment with every local shifted by lo (the callee's return place,
-    local 0, becomes `zero` when given: the caller's destination local)"""
+    local 0, becomes `zero` when given: the caller's destination local). pmap: callee parameter ->
+    caller place it is a reference to; `(*param).f` is rewritten to `<that place>.f`, so a helper's
+    `self.x` reads as the caller's `self.x`."""
     def m(l):
         return zero if (l == 0 and zero is not None) else l + lo
     if isinstance(x, dict):
         if "l" in x and "p" in x and isinstance(x["l"], int):
-            return {"l": m(x["l"]), "p": [([e[0], m(e[1])] + list(e[2:])) if e[0] == "index" else list(e) for e in x["p"]]}
-        return {k: _renum(v, lo, zero) for k, v in x.items()}
+            proj = [([e[0], m(e[1])] + list(e[2:])) if e[0] == "index" else list(e) for e in x["p"]]
+            if pmap and x["l"] in pmap and proj and proj[0][0] == "deref":
+                q = pmap[x["l"]]
+                return {"l": q["l"], "p": [list(e) for e in q["p"]] + proj[1:]}
+            return {"l": m(x["l"]), "p": proj}
+        return {k: _renum(v, lo, zero, pmap) for k, v in x.items()}
     if isinstance(x, list):
-        return [_renum(v, lo, zero) for v in x]
+        return [_renum(v, lo, zero, pmap) for v in x]
     return x
 
 
-def _splice(blocks, locals_, dbg, bi, callee, args, self_operand=None):
+def _ref_target(blocks, argc, o, depth=0):
+    """caller place that operand o is a reference to, when that place is `self`-like: rooted at a
+    parameter of the caller and made of derefs/fields only (stable for the whole body)"""
+    if depth > 6 or not isinstance(o, dict):
+        return None
+    p = o.get("move") or o.get("copy")
+    if p is None or p["p"]:
+        return None
+    l = p["l"]
+    if 1 <= l <= argc:
+        return None  # the parameter itself is the reference: nothing to compose
+    ds = [st for b in blocks for st in b["s"] if st["d"]["l"] == l and not st["d"]["p"]]
+    if len(ds) != 1 or any(b["t"]["k"] == "call" and b["t"]["dest"]["l"] == l and not b["t"]["dest"]["p"] for b in blocks):
+        return None
+    r = ds[0]["r"]
+    if r["k"] == "ref":
+        q = r["a"]
+        if all(e[0] in ("deref", "field") for e in q["p"]):
+            if 1 <= q["l"] <= argc:
+                return {"l": q["l"], "p": [list(e) for e in q["p"]]}
+            # reference to a place behind another reference temp
+            inner = _ref_target(blocks, argc, {"copy": {"l": q["l"], "p": []}}, depth + 1)
+            if inner is not None and q["p"] and q["p"][0][0] == "deref":
+                return {"l": inner["l"], "p": inner["p"] + [list(e) for e in q["p"][1:]]}
+        return None
+    if r["k"] == "use":
+        return _ref_target(blocks, argc, r["a"], depth + 1)
+    return None
+
+
+def _splice(blocks, locals_, dbg, bi, callee, args, argc=0):
     """replace the call terminating blocks[bi] by the body of callee (appended, renumbered).
     args: operands for callee locals 1..; returns the index range of the appended blocks."""
     t = blocks[bi]["t"]
@@ -447,14 +483,20 @@ def _splice(blocks, locals_, dbg, bi, callee, args, self_operand=None):
     for k, v in callee.dbg.items():
         dbg[k + lo] = v
     sp = t.get("sp", "")
+    pmap = {}
+    assigned = {st["d"]["l"] for gb in callee.blocks for st in gb["s"] if not st["d"]["p"]} | {gb["t"]["dest"]["l"] for gb in callee.blocks if gb["t"]["k"] == "call" and not gb["t"]["dest"]["p"]}
     for i, a in enumerate(args):
         blocks[bi]["s"].append({"d": {"l": lo + 1 + i, "p": []}, "r": {"k": "use", "a": a}, "sp": sp, "inl": callee.path})
+        if argc and (i + 1) not in assigned and (callee.locals[i + 1] or "").startswith("&"):
+            q = _ref_target(blocks, argc, a)
+            if q is not None:
+                pmap[i + 1] = q
     cont = t["to"]
     zero = t["dest"]["l"] if not t["dest"]["p"] else None
     for gb in callee.blocks:
         nb = {"s": [], "t": None}
         for st in gb["s"]:
-            ns = _renum(st, lo, zero)
+            ns = _renum(st, lo, zero, pmap)
             nb["s"].append(ns)
         gt = gb["t"]
         if gt["k"] == "return":
@@ -462,10 +504,10 @@ def _splice(blocks, locals_, dbg, bi, callee, args, self_operand=None):
                 nb["s"].append({"d": _renum_dest(t["dest"]), "r": {"k": "use", "a": {"move": {"l": lo, "p": []}}}, "sp": sp, "inl": callee.path})
             nb["t"] = {"k": "goto", "to": cont} if cont is not None and cont >= 0 else {"k": "unreachable"}
         else:
-            nt = _renum(gt, lo, zero)
+            nt = _renum(gt, lo, zero, pmap)
             if nt["k"] == "call" and nt["f"].startswith("<indirect") and isinstance(nt.get("g"), str):
                 try:
-                    nt["g"] = json.dumps(_renum(json.loads(gt["g"]), lo, zero))
+                    nt["g"] = json.dumps(_renum(json.loads(gt["g"]), lo, zero, pmap))
                 except ValueError:
                     pass
             if "to" in nt and isinstance(nt["to"], int) and nt["to"] >= 0:
@@ -566,7 +608,7 @@ def inline_new_helpers(F):
             if t["k"] == "call" and t["f"] in inl and not t.get("dyn"):
                 g = rebuilt.get(t["f"]) or new[t["f"]]
                 if len(t["args"]) == g.argc:
-                    rng = _splice(blocks, locals_, dbg, bi, g, t["args"])
+                    rng = _splice(blocks, locals_, dbg, bi, g, t["args"], fn.argc)
                     spliced |= set(rng)
                     got.append(g.path)
                     got.extend(getattr(g, "inlined", ()))
@@ -618,7 +660,7 @@ def _resolve_fnptr_calls(F, fn):
                 continue
             blocks, locals_, dbg = fn.blocks, fn.locals, fn.dbg
             unit = {"const": True, "ty": "closure", "dbg": cpath}
-            rng = _splice(blocks, locals_, dbg, bi, c, [unit] + list(t["args"]))
+            rng = _splice(blocks, locals_, dbg, bi, c, [unit] + list(t["args"]), fn.argc)
             fn.spliced |= set(rng)
             fn._succ = fn._pred = fn._dom = fn._pdom = fn._reach = fn._defs = None
             hit = True
